@@ -10,6 +10,7 @@ import (
 	"crypto"
 	"crypto/rand"
 	"crypto/rsa"
+	"crypto/sha1" //nolint:gosec // COSE RS1 is what the validator accepts
 	"crypto/sha256"
 	"crypto/x509"
 	"encoding/asn1"
@@ -56,6 +57,9 @@ func (t *TPMSpec) akCert(w *DAW) *x509.Certificate {
 		return crt
 	}
 	tmpl := &x509.Certificate{PublicKey: tpmAK.Public(), IsCA: false}
+	if t.Mut == "ak-ecc" { // an ECC attestation key: go-attestation verifies RSA AK signatures only
+		tmpl.PublicKey = attKeys["p256"].Public()
+	}
 	if t.Mut != "no-eku" {
 		tmpl.UnknownExtKeyUsage = []asn1.ObjectIdentifier{oidTCGAIK}
 	}
@@ -166,10 +170,25 @@ func (t *TPMSpec) statement(w *DAW, extra []byte) map[string]interface{} {
 	if err != nil {
 		panic(err)
 	}
+	sigHash := tpm2.AlgSHA256
+	switch t.Mut {
+	case "alg-rs1", "alg-rs1-sha256sig": // COSE RS1: the AK signs the SHA-1 digest of certInfo
+		d1 := sha1.Sum(certInfo)
+		if t.Mut == "alg-rs1" {
+			sigHash = tpm2.AlgSHA1
+			if rawSig, err = rsa.SignPKCS1v15(rand.Reader, tpmAK, crypto.SHA1, d1[:]); err != nil {
+				panic(err)
+			}
+		}
+	case "ak-ecc":
+		if rawSig, err = attKeys["p256"].Sign(rand.Reader, digest[:], crypto.SHA256); err != nil {
+			panic(err)
+		}
+	}
 	if t.Mut == "sig-flip" {
 		rawSig[len(rawSig)-1] ^= 1
 	}
-	sig, err := tpm2.Signature{Alg: tpm2.AlgRSASSA, RSA: &tpm2.SignatureRSA{HashAlg: tpm2.AlgSHA256, Signature: rawSig}}.Encode()
+	sig, err := tpm2.Signature{Alg: tpm2.AlgRSASSA, RSA: &tpm2.SignatureRSA{HashAlg: sigHash, Signature: rawSig}}.Encode()
 	if err != nil {
 		panic(err)
 	}
@@ -188,6 +207,10 @@ func (t *TPMSpec) statement(w *DAW, extra []byte) map[string]interface{} {
 	switch t.Mut {
 	case "alg-bad":
 		stmt["alg"] = int64(-8)
+	case "alg-rs1", "alg-rs1-sha256sig":
+		stmt["alg"] = int64(-65535)
+	case "alg-huge":
+		stmt["alg"] = int64(1) << 40 // does not fit int32: cast.SafeInt32 refuses
 	case "alg-es256":
 		stmt["alg"] = int64(-7) // also SHA-256: accepted
 	case "pubarea-empty":
